@@ -138,6 +138,25 @@ def run(ctx):
             recs[oid] = rec
             obs.append(observe(rec, oid))
     ctx.extra['table_debugids'] = 4 * len(ids)
+    # ... and every event id of the table with argument bytes as records of THAT kind may carry them: a short text padded with
+    # NULs (string / path records), all NUL, a NUL last / first byte, NUL words between non-NUL words.  What the record "means"
+    # never changes how it decodes: data is the 32 bytes, values their words.
+    nshaped = 0
+    for k, eid in enumerate(ids):
+        shapes = [b'/a/path'.ljust(32, b'\x00'), bytes(32), bytes(rnd.getrandbits(8) | 1 for _ in range(31)) + b'\x00',
+                  b'\x00' + bytes(rnd.getrandbits(8) | 1 for _ in range(31)),
+                  bytes(rnd.getrandbits(8) | 1 for _ in range(8)) + bytes(16) + bytes(rnd.getrandbits(8) | 1 for _ in range(8)),
+                  bytes(rnd.getrandbits(8) | 1 for _ in range(rnd.randrange(1, 32))).ljust(32, b'\x00'),
+                  b' text \n'.ljust(32, b' '), bytes(24) + b'tail' + bytes(4)]
+        for si, data in enumerate(shapes if not ctx.quick else shapes[(k % 2) * 4:(k % 2) * 4 + 4]):
+            dbg = (eid & 0xfffffffc) | ((k + si) % 4)
+            rec = struct.pack('<Q', rnd.getrandbits(64)) + data + struct.pack('<QIIQ', rnd.getrandbits(64), dbg, rnd.getrandbits(32),
+                                                                           rnd.getrandbits(64))
+            oid = 'shp%d_%d' % (k, si)
+            nshaped += 1
+            recs[oid] = rec
+            obs.append(observe(rec, oid, how=nshaped % 3))
+    ctx.extra['table_debugids_with_shaped_argument_bytes'] = nshaped
     # TEXT-LIKE fields: records that carry a chunk of a string (paths, thread names, format strings) fill their argument
     # bytes - or any field - with bytes of one small class: blanks, ASCII white space, digits, letters, NUL / blank mixes,
     # one repeated byte.  (str / bytes helpers - strip, isdigit, isspace, split, int() - treat exactly these specially.)
